@@ -44,6 +44,44 @@ fn main() {
     }
     match args[1].as_str() {
         "agent" => bb::agent::main(&args[2..]),
+        "corpus" => {
+            // corpus <dir> <n>: write seed inputs for the fuzz targets (generated valid manifests, depfiles, paths)
+            let dir = PathBuf::from(&args[2]);
+            let n: usize = args.get(3).and_then(|s| s.parse().ok()).unwrap_or(40);
+            for t in ["load", "depfile", "canon"] {
+                std::fs::create_dir_all(dir.join(t)).unwrap();
+            }
+            let mut x: u64 = 0x1234_5678_9abc_def1;
+            let mut tape = |len: usize| -> Vec<u16> {
+                (0..len)
+                    .map(|_| {
+                        x ^= x << 13;
+                        x ^= x >> 7;
+                        x ^= x << 17;
+                        (x >> 20) as u16
+                    })
+                    .collect()
+            };
+            for i in 0..n {
+                let main = tape(160);
+                let sp = tape(120);
+                let mut mt = tape::Tape::new(&main);
+                let mut g = syn::gen::Gen { t: &mut mt, o: syn::gen::SynOpts { vars_heavy: i % 2 == 0, children: false, respell_pct: 5, special_chars_pct: 15 }, counter: 0, rules: vec![], features: vec![] };
+                let m = g.manifest();
+                let mut rt = tape::Tape::new(&sp);
+                let mut r = syn::ast::Renderer { t: &mut rt, variation: 1 + i % 3, features: vec![], line: 1 };
+                let text = r.manifest(&m).files["build.ninja"].clone();
+                std::fs::write(dir.join("load").join(format!("gen{:03}.ninja", i)), text).unwrap();
+            }
+            let deps = ["a.o: b.h c.h\n", "build/x.o: src/x.cc \\\n  src/x.h\n\nother.o: y.h", "C:/out.obj: C:/inc/w.h dir\\win.h\n", "a: b\na: c\n", "t :\n", "\u{e9}.o: \u{20ac}.h  \n"];
+            for (i, d) in deps.iter().enumerate() {
+                std::fs::write(dir.join("depfile").join(format!("d{}.d", i)), d).unwrap();
+            }
+            let paths = ["a/b/../c", "./x", "../../up/./f", "/root//x/", "a\\b\\..\\c", "...", ".", "d/d/d/d/d/d/d/d/d/d/f", "\u{e9}/./\u{20ac}/../z"];
+            for (i, p) in paths.iter().enumerate() {
+                std::fs::write(dir.join("canon").join(format!("p{}", i)), p).unwrap();
+            }
+        }
         "run" => {
             let id = args.get(2).cloned().unwrap_or_else(|| usage());
             let tier = match args.get(3).map(|s| s.as_str()).or(std::env::var("VERIF_TIER").ok().as_deref()) {
